@@ -189,7 +189,11 @@ func (e *Engine) bind() error {
 			if fo == nil {
 				return fmt.Errorf("%s:%d: extern: cannot find %s", fc.File, fc.Line, fc.Header)
 			}
-			e.externs[fo.FullName()] = fc
+			if fc.Aspect != "" && fc.Aspect != "main" {
+				e.externs[fo.FullName()+"\x00"+fc.Aspect] = fc
+			} else {
+				e.externs[fo.FullName()] = fc
+			}
 			continue
 		}
 		fn := e.lookupFunc(fc.PkgPath, fc.RecvType, fc.Name)
